@@ -31,6 +31,17 @@ def entry_key(F, rep):
     if pn is None:
         raise AnchorMissing("bytecode::interpreter::Program::new")
     ALLOWED = rules.TRANSPARENT | {"alloc::rc::Rc::new", "alloc::str::<impl str>::replace", "alloc::string::String::from", "alloc::string::ToString::to_string"}
+    # a helper of the crate that only normalises the separator counts as that normalisation: what it returns comes from its parameter alone, through
+    # the same allowed calls, and a replace in it is `\\` -> `/` (on this platform the helper is the identity: the Windows rewrite is cfg-gated out)
+    for c in pn.calls():
+        h = F.fn(c.callee())
+        if h is None or not h.path.startswith("bytecode::") or len(h.d.get("inputs") or []) != 1:
+            continue
+        o = rules.origins(h, 0, transparent=ALLOWED)
+        reps_ok = all((op_const(r.args[1]) or {}).get("int") == "92" and {x[1] for x in rules.literal_of(h, r.args[2]) if x[0] == "str"} == {"/"}
+                      for r in h.calls_to("alloc::str::<impl str>::replace"))
+        if o and all(x[0] == "arg" for x in o) and reps_ok:
+            ALLOWED = ALLOWED | {mir.strip_generics(c.callee())}
     sinks = [(c, 1) for c in pn.calls_to("std::collections::hash::map::HashMap::insert")] + [(c, 0) for c in pn.calls_to("bytecode::file::MScriptFile::open")]
     rep.floor("C04.entry-key uses of the entry path in Program::new", len(sinks), 2)
     for c, ai in sinks:
@@ -68,6 +79,7 @@ def run(ctx, rep):
     log_arguments(F, rep)
     panic_is_not_success(ctx, rep)
     shared_options_share_their_defaults(ctx, rep)
+    paths_are_not_respelled(ctx, rep)
     function_table_writers_agree(F, rep)
     rep.assume("a character not compared against any constant by the reader behaves like the class representative 'x' (the reader touches "
                "characters only through comparisons with constants and char::is_whitespace)")
@@ -293,6 +305,28 @@ def shared_options_share_their_defaults(ctx, rep, rule="C04.cli-defaults"):
         rep.ob(rule, "--%s has one default in the %d sub-commands that offer it" % (name, len(v)), st,
                "" if st == "ok" else ("defaults %s: a program between the two limits (a recursion of that depth) finishes under one command and aborts under the other" % vals),
                v[0][1], fn=v[0][2].path, key="%s|%s" % (rule, name))
+
+
+def paths_are_not_respelled(ctx, rep, rule="C04.path-spelling"):
+    """`run` keeps the entry module in memory under whatever key the path is spelled with; `compile` writes files and `execute` opens them.  A path
+    that is re-spelled on the way (a `\\` folded into `/`) still names the in-memory module, but no longer the file on disk: on this platform `\\`
+    is an ordinary character of a file name, and `a\\b.ms` runs but cannot be executed.  So, in a build for a platform whose separator is `/`, no
+    `replace('\\', "/")` is applied to a path (a Windows-only rewrite is absent from the analysed build by `#[cfg(windows)]`)."""
+    F = ctx.facts("default", ["mscript-bin", "bytecode", "compiler", "bytecode_dev_transpiler"])
+    n = 0
+    for g in F.all_fns():
+        for c in g.calls():
+            if not (c.callee().endswith("::replace") and "str" in c.callee()) or len(c.args) < 3:
+                continue
+            n += 1
+            pat = rules.literal_of(g, c.args[1])
+            to = rules.literal_of(g, c.args[2])
+            if any(x[0] == "int" and x[1] == "92" for x in pat) and any(x[0] == "str" and x[1] == "/" for x in to):
+                rep.ob(rule, "%s does not fold `\\` into `/` on a platform where `\\` is an ordinary character" % mir.short(g.path), "violated",
+                       "replace('\\\\', \"/\") on a module path: a source file named `a\\b.ms` runs (`run` keeps the module in memory under the rewritten key) but "
+                       "`compile` + `execute` looks for `a/b.mmm` and fails", c.span, fn=g.path, key="%s|%s" % (rule, mir.short(g.path)))
+    rep.floor(rule + " text replacements looked at", n, 5)
+    rep.ob(rule, "every str::replace of the four crates was looked at for the pattern ('\\', \"/\")", "ok", "%d calls" % n, None, key=rule + "|census")
 
 
 def panic_is_not_success(ctx, rep):
